@@ -121,7 +121,7 @@ def run_text_rt(spec):
     from testtools.content import text_content, json_content
     from testtools.content_type import UTF8_TEXT, JSON
     vs = []
-    s = spec["text"]
+    s = spec["text"] * spec.get("times", 1)
     c = text_content(s)
     if c.as_text() != s:
         vs.append(V("text-roundtrip", "as_text", "as_text() %r != %r" % (c.as_text(), s)))
@@ -146,7 +146,7 @@ def run_text_rt(spec):
     except TypeError:
         pass
     nt = any(ord(ch) > 0xFFFF or ch == "\x00" or 0x300 <= ord(ch) < 0x370 for ch in s)
-    return Case(vs, nt, ["astral/nul/combining" if nt else "plain"], {"bytes": raw[:40]})
+    return Case(vs, nt, ["astral/nul/combining" if nt else "plain", "len>4096" if len(s) > 4096 else ("len>100" if len(s) > 100 else "short")], {"bytes": raw[:40]})
 
 
 # ------------------------------------------------------------------ as_text vs chunking
@@ -171,7 +171,9 @@ def s_decode_case(draw):
         kind = "raw"
     cuts = draw(st.lists(st.integers(0, max(1, len(data))), max_size=6))
     return {"charset": cs, "data": data, "cuts": cuts, "kind": kind,
-            "param_case": draw(st.sampled_from(["charset"]))}
+            "param_case": draw(st.sampled_from(["charset"])),
+            # an earlier iter_text() of the same object, advanced this many steps and then abandoned
+            "abandon": draw(st.sampled_from([None, None, 0, 1, 2, 3]))}
 
 
 def _cut_inside_char(data, cuts, cs):
@@ -202,6 +204,14 @@ def run_decode(spec):
         want = data.decode(eff)
     except UnicodeError:
         want = UnicodeError
+    if spec.get("abandon") is not None:
+        it = c.iter_text()
+        try:
+            for _ in range(spec["abandon"]):
+                next(it, None)
+        except UnicodeError:
+            pass
+        del it
     try:
         got = c.as_text()
     except UnicodeError:
@@ -228,7 +238,8 @@ def run_decode(spec):
     inside = _cut_inside_char(data, spec["cuts"], eff)
     return Case(vs, inside, ["cut-inside-char" if inside else "cuts-at-boundaries",
                              "kind=" + spec["kind"], "cs=%s" % cs,
-                             "undecodable" if want is UnicodeError else "decodable"],
+                             "undecodable" if want is UnicodeError else "decodable",
+                             "after-abandoned-iterator" if spec.get("abandon") else ""],
                 {"chunks": chunks})
 
 
@@ -320,6 +331,7 @@ def s_stream_case(draw):
             "offset": offset, "prepos": prepos, "buffer_now": draw(st.booleans()),
             "mutate": draw(st.binary(max_size=8)),
             "short": draw(st.sampled_from([None, None, 1, 2, 3])) if kind == "stream" else None,
+            "two_iterators": draw(st.booleans()),
             "default_chunk": draw(st.booleans()) and chunk_size == 4096}
 
 
@@ -378,7 +390,16 @@ def run_stream(spec):
             s.ops.clear()
         elif ops_at_construction:
             vs.append(V("lazy", "stream-eager", "stream touched before iter_bytes: %r" % ops_at_construction))
-        chunks = list(c.iter_bytes())
+        if not spec["buffer_now"] and spec["offset"] is not None and spec["whence"] in (0, 2) and spec.get("two_iterators"):
+            # two iterations of one content, both obtained before either is consumed: each seeks to the requested
+            # (absolute) offset when it starts reading
+            it1, it2 = c.iter_bytes(), c.iter_bytes()
+            chunks = list(it1)
+            second = b"".join(it2)
+            if second != want:
+                vs.append(V("stream-bytes", "stream-second-iterator", "a second iterator obtained before the first was consumed gives %r, want %r" % (second, want)))
+        else:
+            chunks = list(c.iter_bytes())
         if spec["buffer_now"] and s.ops:
             vs.append(V("lazy", "stream-buffer_now-reread", "buffered content touched the stream again: %r" % s.ops))
         d = content_from_stream(LoggedStream(data))
@@ -552,7 +573,7 @@ def subchecks(tier):
     return [
         Sub("bytes", run_bytes, s_bytes_case(), 1000 if q else 100000),
         Sub("text_json_roundtrip", run_text_rt,
-            st.fixed_dictionaries({"text": ANYTEXT, "data": JSONABLE}), 1000 if q else 100000),
+            st.fixed_dictionaries({"text": ANYTEXT, "data": JSONABLE, "times": st.sampled_from([1, 1, 1, 1, 30, 1000, 4097, 8192])}), 1000 if q else 100000),
         Sub("as_text_chunking", run_decode, s_decode_case(), 3000 if q else 300000),
         Sub("interleaved_decoding", run_interleaved, s_interleaved(), 1000 if q else 60000),
         Sub("stream_file", run_stream, s_stream_case(), 2000 if q else 200000),
